@@ -275,6 +275,9 @@ type callSpec struct {
 	id     int
 	msgs   []msgSpec
 	cancel bool // call with a context cancelled shortly after submission
+	// cancelOn (with cancel): "" = at a random moment within 1.5 ms; "pre" = the context is cancelled before the call;
+	// any other value = when the produce request held at the gate of that name has reached the broker
+	cancelOn string
 }
 
 type scenario struct {
@@ -494,6 +497,40 @@ func (b *builder) holdRetry(n int, first string) *scenario {
 	return sc
 }
 
+// ctxHold: a synchronous caller whose first call is cancelled while its first batch is in flight (the produce request
+// is held at the broker; variant "pre": the context is cancelled before the call), then writes again to the same
+// partition; the held attempt then ends as scripted (ack, lost ack, retriable / permanent code, dropped).
+// WriteMessages must return ctx.Err() without withdrawing anything: every message of the cancelled call still gets
+// produced (`unsent` counts them), in order before the next call's messages, with the scripted completion.
+func (b *builder) ctxHold(i int) *scenario {
+	r := b.r
+	sc := &scenario{name: "ctxhold" + strconv.Itoa(i), bs: 1 + i%3, bb: 1 << 20, ma: 2 + i%2, async: false, compl: i%2 == 0, wtopic: "t",
+		timeout: 2 * time.Millisecond, nparts: map[string]int{"t": 1 + i%2}, faults: map[tpKey][]fault{}, closeAt: -1, special: "ctxhold"}
+	b.nextC++
+	c1 := callSpec{id: b.nextC, cancel: true, cancelOn: "p1"}
+	if i%4 == 3 {
+		c1.cancelOn = "pre"
+	}
+	c1.msgs = append(c1.msgs, b.mkMsg(45, "", 0, false))
+	for k := 0; k < r.Intn(4); k++ {
+		c1.msgs = append(c1.msgs, b.mkMsg(40+r.Intn(10), "", r.Intn(sc.nparts["t"]), false))
+	}
+	b.nextC++
+	c2 := callSpec{id: b.nextC}
+	for k := 0; k < 1+r.Intn(3); k++ {
+		c2.msgs = append(c2.msgs, b.mkMsg(40+r.Intn(10), "", 0, false))
+	}
+	sc.callers = [][]callSpec{{c1, c2}}
+	if i%5 == 4 { // a second goroutine writing to the same partition meanwhile
+		b.nextC++
+		sc.callers = append(sc.callers, []callSpec{{id: b.nextC, msgs: []msgSpec{b.mkMsg(44, "", 0, false), b.mkMsg(44, "", 0, false)}}})
+	}
+	first := []fault{{kind: "ok"}, {kind: "lostack", code: 1}, {kind: "kerr", code: 6}, {kind: "kerr", code: 10}, {kind: "drop", code: 2}, {kind: "lostack", code: 0}}[i%6]
+	first.gate = "p1"
+	sc.faults[tpKey{"t", 0}] = []fault{first, {kind: "ok"}, {kind: "ok"}}
+	return sc
+}
+
 // tinyTimeout: BatchTimeout of microseconds with BatchSize 2 and odd message counts, while every batch creation is
 // stalled inside the partition mutex: the linger timer of a batch expires while writeMessages fills and queues it and
 // opens the next batch, so the timer branch of awaitBatch runs for a batch that is no longer attached
@@ -659,6 +696,9 @@ func (b *builder) wireScenario(i int) *scenario {
 		}
 		sc.callers = append(sc.callers, calls)
 	}
+	if i%5 == 4 {
+		sc.closeAt = time.Duration(500+r.Intn(4000)) * time.Microsecond // Close while requests are on the wire
+	}
 	// leader moves after a few produce requests, on random partitions
 	nm := 1 + r.Intn(3)
 	for k := 0; k < nm; k++ {
@@ -754,20 +794,43 @@ func run(sc *scenario, out *bufio.Writer) {
 	kafka.VerifStart()
 	var tmu sync.Mutex
 	born := map[string]time.Time{}
+	bornLower := map[string]time.Time{}
+	var sectionTime time.Time
+	earlyTimers := 0
 	var dumpMu sync.Mutex
 	var dump func(why string) // set below, once the calls exist
 	completed := map[string]bool{}
 	kafka.VerifSetSink(func(e kafka.VerifEvent) {
+		now := time.Now()
 		switch e.Kind {
+		case "W.Batch", "W.NewPW", "PW.Add":
+			// events of the batchMessages critical section: emitted by the goroutine that holds w.mutex, so the time
+			// taken here (in that goroutine, before it goes on) is EARLIER than the creation of any batch it opens next
+			tmu.Lock()
+			sectionTime = now
+			tmu.Unlock()
+		case "PW.Detach":
+			if e.Args[2] == "full" || e.Args[2] == "nofit" {
+				tmu.Lock()
+				sectionTime = now
+				tmu.Unlock()
+			}
 		case "PW.NewBatch":
 			tmu.Lock()
-			born[e.Args[1]] = time.Now()
+			born[e.Args[1]] = now
+			bornLower[e.Args[1]] = sectionTime
+			sectionTime = now
 			delete(completed, e.Args[1])
 			tmu.Unlock()
 		case "B.TimerFire":
 			tmu.Lock()
 			if t0, ok := born[e.Args[1]]; ok {
-				timerObs.add(time.Since(t0), sc.timeout)
+				timerObs.add(now.Sub(t0), sc.timeout)
+			}
+			// sound check: even measured from a time before the timer was armed to a time after it fired, less than
+			// BatchTimeout (minus tolerance) has passed: the timer fired early, whatever the scheduler did
+			if t0, ok := bornLower[e.Args[1]]; ok && !t0.IsZero() && len(sc.sinkDelay) == 0 && now.Sub(t0) < sc.timeout-time.Millisecond {
+				earlyTimers++
 			}
 			tmu.Unlock()
 		case "B.Complete":
@@ -824,7 +887,7 @@ func run(sc *scenario, out *bufio.Writer) {
 	var wg sync.WaitGroup
 	// ---- render (also used for an emergency dump right before a crash)
 	dumped := false
-	render := func(evs []kafka.VerifEvent, unsent int, stuck bool) {
+	render := func(evs []kafka.VerifEvent, unsent int, stuck bool, stats string) {
 		rmu.Lock()
 		defer rmu.Unlock()
 		f.mu.Lock()
@@ -900,7 +963,10 @@ func run(sc *scenario, out *bufio.Writer) {
 		}
 		sb.WriteString(strings.Join(cbs, ";"))
 		cbmu.Unlock()
-		fmt.Fprintf(&sb, " | unsent %d | multi %d | stuck %d", unsent, f.multi, b2i(stuck))
+		tmu.Lock()
+		early := earlyTimers
+		tmu.Unlock()
+		fmt.Fprintf(&sb, " | unsent %d | multi %d | stuck %d | stats %s | early %d", unsent, f.multi, b2i(stuck), stats, early)
 		out.WriteString(sb.String())
 		out.WriteString("\n")
 		out.Flush()
@@ -908,7 +974,7 @@ func run(sc *scenario, out *bufio.Writer) {
 	dumpMu.Lock()
 	dump = func(why string) {
 		fmt.Fprintf(os.Stderr, "writer driver: %s in scenario %s: dumping the trace before the library panics\n", why, sc.name)
-		render(kafka.VerifSnapshot(), 0, false)
+		render(kafka.VerifSnapshot(), 0, false, "-")
 	}
 	dumpMu.Unlock()
 	if sc.special == "closewin" {
@@ -932,7 +998,17 @@ func run(sc *scenario, out *bufio.Writer) {
 				if lc.spec.cancel {
 					var cancel context.CancelFunc
 					ctx, cancel = context.WithCancel(ctx)
-					time.AfterFunc(time.Duration(jr.Intn(1500))*time.Microsecond, cancel)
+					switch lc.spec.cancelOn {
+					case "":
+						time.AfterFunc(time.Duration(jr.Intn(1500))*time.Microsecond, cancel)
+					case "pre":
+						cancel()
+					default:
+						go func(gate string) {
+							f.waitReached(gate)
+							cancel()
+						}(lc.spec.cancelOn)
+					}
 				}
 				err := w.WriteMessages(ctx, lc.msgs...)
 				rmu.Lock()
@@ -960,6 +1036,11 @@ func run(sc *scenario, out *bufio.Writer) {
 		waitTimeout(&wg, 6*time.Second) // all later (async) calls are queued behind the held batch
 		time.Sleep(2 * sc.timeout)
 		f.open("p1")
+	case sc.special == "ctxhold":
+		f.waitReached("p1") // the first batch of the call to be cancelled is at the broker (held)
+		waitEventArg("W.Return", 1, "ctx", 2*time.Second)
+		time.Sleep(1500 * time.Microsecond) // the caller's next call gets queued behind the held batch
+		f.open("p1")
 	case sc.closeAt >= 0:
 		time.Sleep(sc.closeAt)
 		go doClose()
@@ -979,9 +1060,23 @@ func run(sc *scenario, out *bufio.Writer) {
 			// to a batch, PW.Attempt names the batch) — an attempt that dies before it reaches a broker still counts
 			unsent = 0
 			okcalls := map[string]int{}
+			// a call that returned ctx.Err() from its wait for the batches (W.Return … ctx) has queued all its messages:
+			// they must get produced like those of any other call
+			ctxWaited := map[int]bool{}
+			for _, e := range kafka.VerifSnapshot() {
+				if e.Kind == "W.Return" && len(e.Args) > 1 && e.Args[1] == "ctx" {
+					for ci := range live {
+						for _, lc := range live[ci] {
+							if lc.ptr == e.Args[0] {
+								ctxWaited[lc.spec.id] = true
+							}
+						}
+					}
+				}
+			}
 			rmu.Lock()
 			for _, r := range results {
-				if r.code == "ok" || strings.HasPrefix(r.code, "werr") {
+				if r.code == "ok" || strings.HasPrefix(r.code, "werr") || (r.code == "ctx" && ctxWaited[r.call]) {
 					for ci := range live {
 						for _, lc := range live[ci] {
 							if lc.spec.id == r.call {
@@ -1073,7 +1168,14 @@ func run(sc *scenario, out *bufio.Writer) {
 	if callersStuck || unsent > 0 || stuck {
 		failedScenarios++
 	}
-	render(evs, unsent, stuck)
+	// the Writer's own accounting (WriterStats; counters are reset by the read): produce attempts, messages and bytes
+	// handed to them, failed attempts, retries, largest batch
+	stats := "-"
+	if !stuck {
+		st := w.Stats()
+		stats = fmt.Sprintf("w=%d,m=%d,b=%d,e=%d,r=%d,maxn=%d,maxb=%d", st.Writes, st.Messages, st.Bytes, st.Errors, st.Retries, st.BatchSize.Max, st.BatchBytes.Max)
+	}
+	render(evs, unsent, stuck, stats)
 }
 
 func (sc *scenario) jitterMaxUs() int {
@@ -1141,6 +1243,19 @@ func b2i(b bool) int {
 		return 1
 	}
 	return 0
+}
+
+func waitEventArg(kind string, idx int, val string, max time.Duration) bool {
+	deadline := time.Now().Add(max)
+	for time.Now().Before(deadline) {
+		for _, e := range kafka.VerifSnapshot() {
+			if e.Kind == kind && len(e.Args) > idx && e.Args[idx] == val {
+				return true
+			}
+		}
+		time.Sleep(200 * time.Microsecond)
+	}
+	return false
 }
 
 func waitEvent(kind string, max time.Duration) bool {
@@ -1247,6 +1362,9 @@ func main() {
 	}
 	for i := 0; i < 12*extra && failedScenarios < 3; i++ {
 		run(b.wireScenario(i), out)
+	}
+	for i := 0; i < 12*extra && failedScenarios < 3; i++ {
+		run(b.ctxHold(i), out)
 	}
 	for i := 0; i < n && failedScenarios < 3; i++ {
 		run(b.random(i, thorough), out)
